@@ -48,6 +48,8 @@ pub enum CallSpec {
     Pull { sub: String, max: i32, ri: bool },
     Ack { sub: String, acks: Vec<AckRef> },
     ModAck { sub: String, acks: Vec<AckRef>, secs: i32 },
+    /// One of the RPCs the emulator does not implement; `name` goes into the request's main field.
+    Other { rpc: String, name: String },
 }
 
 /// Maps a payload class of the model to concrete bytes and attributes.
@@ -217,6 +219,60 @@ async fn exec_inner(world: Arc<World>, c: usize, spec: CallSpec) -> (String, Val
                 .await
             {
                 Ok(r) => ("OK".into(), json!({"name": r.get_ref().name})),
+                Err(s) => status_ret(&s),
+            }
+        }
+        CallSpec::Other { rpc, name } => {
+            use deltio::pubsub_proto as pb;
+            world.ev("inv", json!({"c": c, "op": "Other", "rpc": rpc, "name": name}));
+            let n = name.clone();
+            let mask = Some(prost_types::FieldMask { paths: vec!["labels".to_string()] });
+            let r: Result<(), Status> = match rpc.as_str() {
+                "UpdateTopic" => publisher
+                    .update_topic(pb::UpdateTopicRequest { topic: Some(Topic { name: n, ..Default::default() }), update_mask: mask })
+                    .await
+                    .map(|_| ()),
+                "ListTopicSnapshots" => publisher
+                    .list_topic_snapshots(pb::ListTopicSnapshotsRequest { topic: n, page_size: 0, page_token: String::new() })
+                    .await
+                    .map(|_| ()),
+                "DetachSubscription" => publisher
+                    .detach_subscription(pb::DetachSubscriptionRequest { subscription: n })
+                    .await
+                    .map(|_| ()),
+                "UpdateSubscription" => subscriber
+                    .update_subscription(pb::UpdateSubscriptionRequest {
+                        subscription: Some(Subscription { name: n, ack_deadline_seconds: 77, ..Default::default() }),
+                        update_mask: mask,
+                    })
+                    .await
+                    .map(|_| ()),
+                "ModifyPushConfig" => subscriber
+                    .modify_push_config(pb::ModifyPushConfigRequest {
+                        subscription: n,
+                        push_config: Some(PushConfig { push_endpoint: "http://127.0.0.1:9/x".into(), ..Default::default() }),
+                    })
+                    .await
+                    .map(|_| ()),
+                "GetSnapshot" => subscriber.get_snapshot(pb::GetSnapshotRequest { snapshot: n }).await.map(|_| ()),
+                "ListSnapshots" => subscriber
+                    .list_snapshots(pb::ListSnapshotsRequest { project: n, page_size: 0, page_token: String::new() })
+                    .await
+                    .map(|_| ()),
+                "CreateSnapshot" => subscriber
+                    .create_snapshot(pb::CreateSnapshotRequest { name: "projects/p1/snapshots/x".into(), subscription: n, ..Default::default() })
+                    .await
+                    .map(|_| ()),
+                "UpdateSnapshot" => subscriber
+                    .update_snapshot(pb::UpdateSnapshotRequest { snapshot: Some(pb::Snapshot { name: n, ..Default::default() }), update_mask: mask })
+                    .await
+                    .map(|_| ()),
+                "DeleteSnapshot" => subscriber.delete_snapshot(pb::DeleteSnapshotRequest { snapshot: n }).await.map(|_| ()),
+                "Seek" => subscriber.seek(pb::SeekRequest { subscription: n, target: None }).await.map(|_| ()),
+                _ => Err(Status::unknown("harness: no such rpc")),
+            };
+            match r {
+                Ok(()) => ("OK".into(), json!({})),
                 Err(s) => status_ret(&s),
             }
         }
